@@ -71,6 +71,36 @@ Theorem C08_present_decided_at_k : forall id f id2 p n k fuel,
               /\ o <> OutOfFuel.
 Proof. exact run_present_exact. Qed.
 
+(* ---------------------------------------------------------------- multiUse: recorded finding
+   Full statement (what the property demands of a multiUse consumer): the pass over the source makes at
+   most one step more than the consumer needs,
+       forall fuel t p l o n l' o' n', run fuel t p = (l, o, n) -> o <> OutOfFuel ->
+         run_multi1 fuel t p = (l', o', n') -> (n' <= n + 1)%nat.
+   It is false for the model of iterator.CopyProducer (and for the implementation, see
+   known_findings.json): the read-ahead is one element of multiUse's INPUT, and behind accept/compact
+   that element may be arbitrarily far away. *)
+Theorem C08_multiuse_read_ahead_refuted :
+  exists fuel t p l o n l' o' n',
+    run fuel t p = (l, o, n) /\ o <> OutOfFuel /\ run_multi1 fuel t p = (l', o', n') /\ o' = o /\ (n' > n + 200)%nat /\ (count 1 l' > count 1 l + 200)%nat.
+Proof.
+  exists 1000%nat, (TPresent 3 (fun x => Ok (x =? 4))),
+         (PStage (SAccept 2 (fun x => Ok (x <? 5))) (PStage (SMap 1 (fun x => Ok x)) (PNumbers 300))).
+  do 6 eexists. split; [vm_compute; reflexivity|]. split; [discriminate|].
+  split; [vm_compute; reflexivity|]. split; [reflexivity|]. split; vm_compute; lia.
+Qed.
+
+(* partial: when the pipeline's step after the decision is not a Skip (nothing is dropped between the
+   source and multiUse at that point) the read-ahead is that single step and runs every closure at
+   most once more; in general it costs as many steps as the pipeline needs to yield again. *)
+Theorem C08_multiuse_read_ahead_partial : forall id f p q,
+  is_skip (snd (next p q)) = false ->
+  snd (drain (S f) p q) = 1%nat /\ (count id (fst (drain (S f) p q)) <= occ_pipe id p)%nat.
+Proof. exact drain_one. Qed.
+
+Theorem C08_multiuse_read_ahead_cost : forall id f p q,
+  (count id (fst (drain f p q)) <= occ_pipe id p * snd (drain f p q))%nat.
+Proof. exact drain_count. Qed.
+
 (* ---------------------------------------------------------------- non-vacuity *)
 
 Definition ex_id : fn1 := fun x => Ok x.
@@ -121,3 +151,6 @@ Print Assumptions C08_source_length_irrelevant.
 Print Assumptions C08_steps_bound.
 Print Assumptions C08_top_no_read_ahead.
 Print Assumptions C08_present_decided_at_k.
+Print Assumptions C08_multiuse_read_ahead_refuted.
+Print Assumptions C08_multiuse_read_ahead_partial.
+Print Assumptions C08_multiuse_read_ahead_cost.
